@@ -5,6 +5,7 @@ import (
 	"bytes"
 	"encoding/json"
 	"fmt"
+	"hash/crc32"
 	"math/rand"
 	"os"
 	"path/filepath"
@@ -269,6 +270,35 @@ func runC16B(args []string) error {
 					if err := c16bCase(c, lg, idx, names, prot, disk, s, desc, rng); err != nil {
 						return err
 					}
+				}
+			}
+		}
+	}
+	// slices with special CRC-32 values: the first survivor behind the edit has CRC-32 0, and two different slices share
+	// one CRC-32 (forged: for every prefix exactly one four-byte suffix gives a wanted CRC-32)
+	for _, s := range []int{8, 64, 4092} {
+		orig := make([]byte, 4*s+s/2)
+		rng.Read(orig)
+		if !forgeCRC32(orig[2*s:3*s], 0) || !forgeCRC32(orig[3*s:4*s], crc32.ChecksumIEEE(orig[0:s])) {
+			return fmt.Errorf("c16b: could not forge the checksums")
+		}
+		other := make([]byte, 2*s+3)
+		rng.Read(other)
+		names := []string{"main.bin", "other.bin"}
+		prot := map[string][]byte{"main.bin": orig, "other.bin": other}
+		for _, p := range []int{s + 1, 2*s - 1} {
+			for _, del := range []bool{false, true} {
+				disk := map[string][]byte{"other.bin": other}
+				desc := fmt.Sprintf("crc0 insert@%d+1", p)
+				if del {
+					disk["main.bin"] = append(append([]byte{}, orig[:p]...), orig[p+1:]...)
+					desc = fmt.Sprintf("crc0 delete@%d+1", p)
+				} else {
+					disk["main.bin"] = append(append(append([]byte{}, orig[:p]...), 0x5A), orig[p:]...)
+				}
+				idx++
+				if err := c16bCase(c, lg, idx, names, prot, disk, s, desc, rng); err != nil {
+					return err
 				}
 			}
 		}
